@@ -32,7 +32,7 @@ ASSUMPTIONS = [
     "termination of the pI search is restated as bounded progress: at most 100000 line events inside the library's "
     "isoelectric_point function per call; NaN / non-numeric pH is not judged (statement speaks of values outside [0,14])",
 ]
-REQUIRED = {"all": ["sweep_points", "pH_zero_points", "pH_fourteen_points", "rejected_out_of_range", "pI_calls",
+REQUIRED = {"all": ["salted_objects", "sweep_points", "pH_zero_points", "pH_fourteen_points", "rejected_out_of_range", "pI_calls",
                     "pI_outside_0_14", "pI_nothing_titrates", "pI_reused_as_pH", "numpy_pH_values", "ordered_multi_object_pI"]}
 NRANDOM = {"quick": 1200, "thorough": 6000}
 NPH = {"quick": 40, "thorough": 90}
